@@ -27,7 +27,9 @@ MANIFEST = dict(
     text="Lean 4 theorems on a model of the generated Python wrapper: for all parameter lists with trailing defaults and "
          "all positional/keyword splits accepted by the keyword parser, if the supplied parameters are the first "
          "(#positional+#keyword) ones the library receives exactly the supplied values and its own defaults for the rest "
-         "(partial: the full statement is refuted by the keyword-skipping witness f(i=1,k=3)); no wrapper or overload "
+         "(partial: the full statement is refuted by the keyword-skipping witness f(i=1,k=3); it is proved in full for functions "
+         "with at most one defaulted parameter, and for functions with a default-argument switch the prefix condition is "
+         "proved necessary as well as sufficient); no wrapper or overload "
          "dispatcher ever ends in SystemError, wrongly typed / surplus / unknown-keyword calls end in TypeError, a call "
          "matching no overload ends in TypeError; the returned object is None / the single item / a tuple with the result "
          "first and the intent(out|inout) parameters in declaration order. The model is tied to wrapp.py on every run: "
@@ -46,6 +48,8 @@ THEOREMS = {
     "ShroudVerif.Props.C03": [
         "Shroud.PyDispatch.call_equiv_prefix_partial",
         "Shroud.PyDispatch.call_equiv_prefix_nokw_partial",
+        "Shroud.PyDispatch.call_equiv_single_default",
+        "Shroud.PyDispatch.call_equiv_iff_prefix",
         "Shroud.PyDispatch.kw_skip_witness",
         "Shroud.PyDispatch.call_equiv_full_is_false",
         "Shroud.PyDispatch.wrapper_never_systemError",
@@ -761,12 +765,16 @@ def model_tag(v, clsids_by_name):
 def check_library(ctx, drv, lib, thorough, r, dis_gen, dis_call, extra_calls=()):
     d = common.scratch()
     try:
-        calls_rec, texts, out = run_shroud(lib, d)
+        replay_base = {"yaml": lib.yaml(), "header": lib.header(), "subject": lib.subject_source(), "language": lib.language,
+                       "library": lib.name}
+        try:
+            calls_rec, texts, out = run_shroud(lib, d)
+        except RuntimeError as e:
+            ctx.fail("generate:" + lib.name, "Shroud fails on a valid description: " + str(e)[:600], replay_base)
+            return
         info = {}
         intern, clsids = tie_emitted(ctx, drv, lib, calls_rec, texts, dis_gen, info)
         ok, log = compile_ext(lib, d, out)
-        replay_base = {"yaml": lib.yaml(), "header": lib.header(), "subject": lib.subject_source(), "language": lib.language,
-                       "library": lib.name}
         if not ok:
             ctx.fail("compile:" + lib.name, "generated Python extension does not compile: " + log[-600:], replay_base)
             return
@@ -787,7 +795,11 @@ def check_library(ctx, drv, lib, thorough, r, dis_gen, dis_call, extra_calls=())
                 c["target"] = call_target(lib, key, c["flag"])
                 c["i"] = len(allcalls)
                 allcalls.append(c)
-        results = drive(d, lib, [{"i": c["i"], "target": c["target"], "pos": c["pos"], "kw": c["kw"]} for c in allcalls])
+        try:
+            results = drive(d, lib, [{"i": c["i"], "target": c["target"], "pos": c["pos"], "kw": c["kw"]} for c in allcalls])
+        except RuntimeError as e:
+            ctx.fail("import:" + lib.name, "compiled extension cannot be imported / driven: " + str(e)[-600:], replay_base)
+            return
         # ---------------- model requests (tie D2)
         reqs = []
         for c in allcalls:
@@ -1005,7 +1017,12 @@ def run(ctx):
     for lib in tlibs:
         d = common.scratch()
         try:
-            calls_rec, texts, _out = run_shroud(lib, d)
+            try:
+                calls_rec, texts, _out = run_shroud(lib, d)
+            except RuntimeError as e:
+                ctx.fail("generate:" + lib.name, "Shroud fails on a valid description: " + str(e)[:600],
+                         {"yaml": lib.yaml(), "library": lib.name, "language": lib.language})
+                continue
             if drv.available():
                 tie_emitted(ctx, drv, lib, calls_rec, texts, dis_gen, {})
         finally:
